@@ -11469,3 +11469,199 @@ func ruleDeleteAllOnlyForInstanceDeletion(r *Run) {
 	}
 	r.check(n >= 1, "repo:DeleteAll-callers", fmt.Sprintf("%d callers, %d in datatype or server packages", n, bad), "no caller found: rule needs review", "-")
 }
+
+// ---------------------------------------------------------------------------------------------
+// Round k: R20.74, R18.23, R17.21, R17.22, R8.32
+
+func init() {
+	register(ruleDef{ID: "R20.74", Prop: "C20", Tier: "quick", Floor: 10,
+		Title: "a counted job is counted by its starter: a function that receives a *sync.WaitGroup and signs off on it (Done) does not call Add on it — an Add made by the job itself, once it runs, races with the starter's Wait, which can return before the last jobs have started (the reply is sent with blocks missing; a negative counter panics outside any recover)",
+		Fn:    ruleWorkerDoesNotAdd})
+	register(ruleDef{ID: "R17.23", Prop: "C17", Tier: "quick", Floor: 10, Title: "(= R20.74) block readers started per block are counted by the request that waits for them", Fn: ruleWorkerDoesNotAdd})
+	register(ruleDef{ID: "R18.23", Prop: "C18", Tier: "quick", Floor: 1,
+		Title: "block coordinates are ordered as signed numbers or as offset keys, never as raw unsigned ones: in package dvid no ordering comparison (<, <=, >, >=) has on both sides a conversion of a signed 32-bit value to an unsigned type (a negative coordinate would sort after every non-negative one; the key codec adds the sign offset before it compares bytes)",
+		Fn:    ruleNoUnsignedCoordinateOrder})
+	register(ruleDef{ID: "R17.24", Prop: "C17", Tier: "quick", Floor: 1, Title: "(= R18.23) the block iterator of voxel reads and writes orders coordinates across zero", Fn: ruleNoUnsignedCoordinateOrder})
+	register(ruleDef{ID: "R17.21", Prop: "C17", Tier: "quick", Floor: 1,
+		Title: "every caller gets its own background block: imageblk.Data.BackgroundBlock returns a buffer made in that call, never one stored in the instance (the per-block writers use it as their scratch buffer)",
+		Fn:    ruleBackgroundBlockFresh})
+	register(ruleDef{ID: "R17.22", Prop: "C17", Tier: "quick", Floor: 1,
+		Title: "a voxel read is answered from the stored blocks: in imageblk.Data.GetVoxels every success return lies behind the loop over the request's block spans (no shortcut decides from the extents that nothing is stored)",
+		Fn:    ruleVoxelReadWalksBlocks})
+	register(ruleDef{ID: "R8.32", Prop: "C08", Tier: "quick", Floor: 1,
+		Title: "every label of a block passes the mapping: in labelmap's modifyBlockMapping every success return lies behind the loop over the block's label table (a block filled by one supervoxel is mapped like any other)",
+		Fn:    ruleBlockMappingWalksTable})
+}
+
+func ruleWorkerDoesNotAdd(r *Run) {
+	w := r.W
+	n := 0
+	for _, f := range w.RepoFuncs {
+		if len(f.Blocks) == 0 || isTestFunc(w, f) {
+			continue
+		}
+		p := relPkg(pkgPathOf(f))
+		if !(strings.HasPrefix(p, "datatype/") || p == "datastore" || p == "server" || strings.HasPrefix(p, "storage")) {
+			continue
+		}
+		for _, prm := range f.Params {
+			if prm.Type().String() != "*sync.WaitGroup" {
+				continue
+			}
+			done, add := false, ssa.Instruction(nil)
+			for _, g := range closureTree(f) {
+				for _, c := range calls(g) {
+					callee := staticCallee(c)
+					if callee == nil || callee.Pkg == nil || callee.Pkg.Pkg.Path() != "sync" || len(c.Common().Args) == 0 {
+						continue
+					}
+					if captureRoot(c.Common().Args[0]) != ssa.Value(prm) && c.Common().Args[0] != ssa.Value(prm) {
+						// a parameter captured by a literal is spilled to a cell
+						if al, ok := captureRoot(c.Common().Args[0]).(*ssa.Alloc); !ok || al.Comment != prm.Name() {
+							continue
+						}
+					}
+					switch callee.Name() {
+					case "Done":
+						done = true
+					case "Add":
+						add = c
+					}
+				}
+			}
+			if !done {
+				continue
+			}
+			n++
+			pos := w.fpos(f)
+			if add != nil {
+				pos = w.pos(add.Pos())
+			}
+			r.check(add == nil, fname(f)+":"+prm.Name()+":no-Add-by-the-worker", "the worker signs off but does not count itself",
+				"a function that is handed a WaitGroup and signs off on it also calls Add on it: started with go, its Add races with the starter's Wait — Wait can return before the last jobs have counted themselves, the request is answered with results missing, and a Done that follows drives the counter negative", pos)
+		}
+	}
+	r.check(n >= 10, "repo:workers-with-a-waitgroup", fmt.Sprintf("%d", n), "too few: rule needs review", "-")
+}
+
+func ruleNoUnsignedCoordinateOrder(r *Run) {
+	w := r.W
+	n := 0
+	nCmp := 0
+	for _, f := range w.RepoFuncs {
+		if len(f.Blocks) == 0 || relPkg(pkgPathOf(f)) != "dvid" || isTestFunc(w, f) {
+			continue
+		}
+		k := 0
+		for _, b := range f.Blocks {
+			for _, in := range b.Instrs {
+				bo, ok := in.(*ssa.BinOp)
+				if !ok {
+					continue
+				}
+				switch bo.Op {
+				case token.LSS, token.LEQ, token.GTR, token.GEQ:
+				default:
+					continue
+				}
+				nCmp++
+				fromSigned := func(v ssa.Value) bool {
+					cv, ok := v.(*ssa.Convert)
+					if !ok {
+						return false
+					}
+					src, ok1 := cv.X.Type().Underlying().(*types.Basic)
+					dst, ok2 := cv.Type().Underlying().(*types.Basic)
+					return ok1 && ok2 && src.Kind() == types.Int32 && dst.Info()&types.IsUnsigned != 0
+				}
+				if fromSigned(bo.X) && fromSigned(bo.Y) {
+					n++
+					k++
+					r.violation(fmt.Sprintf("%s:unsigned-order#%d", fname(f), k),
+						"two signed 32-bit values are compared for order after conversion to an unsigned type: a negative coordinate compares greater than every non-negative one, so a box that spans zero is walked partly or not at all — the write returns success and blocks are missing", w.pos(bo.Pos()))
+				}
+			}
+		}
+	}
+	r.check(nCmp >= 50, "dvid:ordering-comparisons", fmt.Sprintf("%d examined, %d between unsigned conversions of signed values", nCmp, n), "too few comparisons found: rule needs review", "-")
+}
+
+func ruleBackgroundBlockFresh(r *Run) {
+	w := r.W
+	f := w.method("datatype/imageblk", "Data", "BackgroundBlock")
+	if f == nil || len(f.Blocks) == 0 {
+		r.undecided("imageblk.Data.BackgroundBlock", "anchor not found")
+		return
+	}
+	n := 0
+	for _, b := range f.Blocks {
+		ret, ok := b.Instrs[len(b.Instrs)-1].(*ssa.Return)
+		if !ok || len(ret.Results) == 0 {
+			continue
+		}
+		n++
+		fresh := true
+		bad := ""
+		for _, rv := range roots(ret.Results[0], f) {
+			switch x := rv.V.(type) {
+			case *ssa.MakeSlice:
+			case *ssa.Call:
+				if callee := x.Call.StaticCallee(); callee != nil && (callee.Name() == "Repeat" || callee.Name() == "make") {
+					// bytes.Repeat allocates
+				} else {
+					fresh, bad = false, x.String()
+				}
+			case *ssa.Const:
+			default:
+				fresh, bad = false, rv.V.String()
+			}
+		}
+		r.check(fresh, fmt.Sprintf("BackgroundBlock:return#%d:fresh-buffer", n), "the returned buffer is made in this call",
+			"the returned background block is not made in the call ("+bad+"): callers write their block into it, so concurrent block writers of one request overwrite each other and later 'background' reads return the last block written", w.pos(ret.Pos()))
+	}
+	r.check(n >= 1, "BackgroundBlock:returns", fmt.Sprintf("%d", n), "none found: rule needs review", w.fpos(f))
+}
+
+func ruleVoxelReadWalksBlocks(r *Run) {
+	w := r.W
+	f := w.method("datatype/imageblk", "Data", "GetVoxels")
+	if f == nil || len(f.Blocks) == 0 {
+		r.undecided("imageblk.Data.GetVoxels", "anchor not found")
+		return
+	}
+	isWalk := func(x ssa.Instruction) bool {
+		c, ok := x.(ssa.CallInstruction)
+		return ok && methodNameOf(c) == "NewIndexIterator"
+	}
+	pth := findPath(f, nil, isWalk, successExit, nil)
+	r.check(pth == nil, "GetVoxels:success-behind-the-block-walk", "every success return lies behind the creation of the block-span iterator",
+		"a success return can be reached before the walk over the request's block spans has started: a shortcut answers 'nothing stored' from the extents — with an exclusive test on the inclusive MaxPoint the last plane of every volume reads as background", w.fpos(f), w.renderPath(pth)...)
+}
+
+func ruleBlockMappingWalksTable(r *Run) {
+	w := r.W
+	f := w.fn("datatype/labelmap", "modifyBlockMapping")
+	if f == nil || len(f.Blocks) == 0 {
+		r.undecided("labelmap.modifyBlockMapping", "anchor not found")
+		return
+	}
+	var heads []ssa.Instruction
+	for h := range scanLoops(f) {
+		heads = append(heads, h.Instrs[0])
+	}
+	if len(heads) == 0 {
+		r.violation("modifyBlockMapping:table-scan", "no loop over the block's label table found", w.fpos(f))
+		return
+	}
+	isHead := func(x ssa.Instruction) bool {
+		for _, h := range heads {
+			if x == h {
+				return true
+			}
+		}
+		return false
+	}
+	pth := findPath(f, nil, isHead, successExit, nil)
+	r.check(pth == nil, "modifyBlockMapping:success-behind-the-table-scan", "every success return lies behind the loop over the label table",
+		"the mapping of a block's labels can be skipped: a block filled by one supervoxel that was merged into another body is returned with the supervoxel's id on mapped reads, while label/<point>, sizes and sparse volumes give the body", w.fpos(f), w.renderPath(pth)...)
+}
